@@ -237,7 +237,9 @@ class DBStorage(BaseStorage):
             )
             result = await conn.execute(query)
 
-            delete_id = None
+            # every older version is superseded, not just one of them
+            # (out-of-order arrival can leave several)
+            delete_ids = []
             if event.is_paramaterized_replaceable:
                 # according to nip-33, an event with a matching "d" tag will be replaced
                 # empty tags include [], [["d"]], and [["d", ""]]
@@ -255,27 +257,19 @@ class DBStorage(BaseStorage):
                             or len(found_tag[0]) == 1
                             or found_tag[0][1] == ""
                         ):
-                            delete_id = old_id
-                            old_ts = created_at
-                            break
-                    else:
+                            delete_ids.append(old_id)
+                    elif found_tag:
                         tag = found_tag[0]
                         if len(tag) > 1 and tag[1] == d_tag:
-                            delete_id = old_id
-                            old_ts = created_at
-                            break
+                            delete_ids.append(old_id)
 
             else:
-                row = result.first()
-                if row:
-                    delete_id = row[0]
-                    old_ts = row[1]
-            if delete_id:
+                delete_ids = [row[0] for row in result]
+            for delete_id in delete_ids:
                 self.log.info(
-                    "Replacing event %s from %s@%s with %s",
+                    "Replacing event %s from %s with %s",
                     delete_id,
                     event.pubkey,
-                    old_ts,
                     event.id,
                 )
                 await conn.execute(
